@@ -257,7 +257,7 @@ func (c *AnalyzeCommand) buildAnalyzeUseCase(cmd *cobra.Command) (*app.AnalyzeUs
 	builder.WithErrorCategorizer(errorCategorizer)
 
 	// Build individual use cases
-	if err := c.buildIndividualUseCases(builder); err != nil {
+	if err := c.buildIndividualUseCases(cmd, builder); err != nil {
 		return nil, err
 	}
 
@@ -265,11 +265,22 @@ func (c *AnalyzeCommand) buildAnalyzeUseCase(cmd *cobra.Command) (*app.AnalyzeUs
 }
 
 // buildIndividualUseCases builds and sets individual analysis use cases
-func (c *AnalyzeCommand) buildIndividualUseCases(builder *app.AnalyzeUseCaseBuilder) error {
+//
+// The quick filter flags (--min-complexity, --min-severity, --clone-threshold,
+// --min-cbo) take precedence over the configuration file whenever they are
+// given on the command line, even with a value equal to the built-in default.
+func (c *AnalyzeCommand) buildIndividualUseCases(cmd *cobra.Command, builder *app.AnalyzeUseCaseBuilder) error {
+	flagGiven := func(name string) bool {
+		return cmd != nil && cmd.Flags().Changed(name)
+	}
+
 	// Complexity use case
 	complexityService := service.NewComplexityService()
 	complexityFormatter := service.NewOutputFormatter()
-	complexityConfigLoader := service.NewConfigurationLoader()
+	var complexityConfigLoader domain.ConfigurationLoader = service.NewConfigurationLoader()
+	if flagGiven("min-complexity") {
+		complexityConfigLoader = service.WithExplicitMinComplexity(complexityConfigLoader)
+	}
 	complexityUseCase := app.NewComplexityUseCase(
 		complexityService,
 		service.NewFileReader(),
@@ -281,7 +292,10 @@ func (c *AnalyzeCommand) buildIndividualUseCases(builder *app.AnalyzeUseCaseBuil
 	// Dead code use case
 	deadCodeService := service.NewDeadCodeService()
 	deadCodeFormatter := service.NewDeadCodeFormatter()
-	deadCodeConfigLoader := service.NewDeadCodeConfigurationLoader()
+	var deadCodeConfigLoader domain.DeadCodeConfigurationLoader = service.NewDeadCodeConfigurationLoader()
+	if flagGiven("min-severity") {
+		deadCodeConfigLoader = service.WithExplicitMinSeverity(deadCodeConfigLoader)
+	}
 	deadCodeUseCase := app.NewDeadCodeUseCase(
 		deadCodeService,
 		service.NewFileReader(),
@@ -293,7 +307,10 @@ func (c *AnalyzeCommand) buildIndividualUseCases(builder *app.AnalyzeUseCaseBuil
 	// Clone use case
 	cloneService := service.NewCloneService()
 	cloneFormatter := service.NewCloneOutputFormatter()
-	cloneConfigLoader := service.NewCloneConfigurationLoader()
+	var cloneConfigLoader domain.CloneConfigurationLoader = service.NewCloneConfigurationLoader()
+	if flagGiven("clone-threshold") {
+		cloneConfigLoader = service.WithExplicitSimilarityThreshold(cloneConfigLoader, c.cloneSimilarity)
+	}
 	cloneUseCase, err := app.NewCloneUseCaseBuilder().
 		WithService(cloneService).
 		WithFileReader(service.NewFileReader()).
@@ -308,7 +325,10 @@ func (c *AnalyzeCommand) buildIndividualUseCases(builder *app.AnalyzeUseCaseBuil
 	// CBO use case
 	cboService := service.NewCBOService()
 	cboFormatter := service.NewCBOFormatter()
-	cboConfigLoader := service.NewCBOConfigurationLoader()
+	var cboConfigLoader domain.CBOConfigurationLoader = service.NewCBOConfigurationLoader()
+	if flagGiven("min-cbo") {
+		cboConfigLoader = service.WithExplicitMinCBO(cboConfigLoader)
+	}
 	cboUseCase, err := app.NewCBOUseCaseBuilder().
 		WithService(cboService).
 		WithFileReader(service.NewFileReader()).
